@@ -27,7 +27,8 @@ def isortIk (l : List Ent) : List Ent := l.foldr insertIk []
 def snapshotOf (srcs : List (List Ent)) : List Ent := isortIk (firstWins srcs.flatten)
 
 /-- LSM sources by true recency (does not depend on any configuration flag) -/
-def DB.byRecency (db : DB) : List (List Ent) := [db.mem] ++ db.imms.reverse ++ db.l0.map List.flatten
+def DB.byRecency (db : DB) : List (List Ent) :=
+  [db.mem] ++ db.imms.reverse ++ db.l0.map List.flatten ++ (if db.lvl.isEmpty then [] else [db.lvl.flatten.flatten])
 
 /-- the transaction's own writes: the last write to a key wins; version = read timestamp -/
 def pendingEnts (readTs : Nat) (ws : List Write) : List Ent :=
